@@ -58,9 +58,10 @@ def rule_refresh(ctx):
             if refresh and (not msteps or max(x.order for x in refresh) > max(x.order for x in msteps)) and gkeys(refresh[-1]) == gkeys(e):
                 res.ok()
                 res.sample({"fn": key, "order": "m_step .. refresh_precisions_full .. store"})
-            elif any(((x.kind == "call" and x.name.startswith("refresh_precisions")) or (x.kind == "assign" and x.lhs.endswith(".precisions") and "call:compute_precisions_full(" in k(x.val) and "precisions_chol" in k(x.val))) and not x.loops and x.order > e.order for x in tr.events):
+            elif any(((x.kind == "call" and x.name.startswith("refresh_precisions")) or (x.kind == "assign" and x.lhs.endswith(".precisions") and "call:compute_precisions_full(" in k(x.val) and "precisions_chol" in k(x.val))) and not x.loops and x.order > e.order and getattr(x, "val", None) is not None and k(e.val) in k(x.val) for x in tr.events):
                 # the snapshot is refreshed once, after the run loop, where it is taken out of the best-run slot and returned:
-                # what is handed out carries precisions derived from its own factors
+                # what is handed out carries precisions derived from its own factors (the refresh reads the factors *of the
+                # stored value*; a refresh of the working model after the loop leaves the snapshot as it was)
                 res.ok()
                 res.sample({"fn": key, "order": "store .. (after the runs) refresh_precisions_full .. return"})
             else:
